@@ -177,8 +177,8 @@ func (p *oracle) expect(r *result) string {
 }
 
 func (p *oracle) label(r *result) string {
-	if r.kind == "reset" {
-		return "reset"
+	if r.kind == "reset" || r.kind == "conc" {
+		return r.kind
 	}
 	return r.kind + ":" + p.expect(r) + "->" + r.errc
 }
